@@ -92,6 +92,17 @@ func c15Enum() []c15Case {
 func c15Gen(t *rapid.T) c15Case {
 	var c c15Case
 	c.Cfg = rapid.SampledFrom(shardPick([]sut.Config{{ServerConns: 1}, {ServerConns: 2}, {ServerConns: 1, Password: "pw"}}, 2)).Draw(t, "cfg")
+	if rapid.IntRange(0, 11).Draw(t, "deep") == 0 {
+		// the request that loses its backend has more than a thousand requests behind it that are already complete
+		k := keyFor(rapid.SampledFrom([]int{100, 5461, 10922}).Draw(t, "deepslot"), 0, 0, 0)
+		cs := ClientSpec{Reqs: []Req{{Name: Bin("get"), Args: []Bin{k}}}}
+		for i, n := 0, rapid.SampledFrom([]int{1023, 1024, 1100, 1500, 2600}).Draw(t, "behind"); i < n; i++ {
+			cs.Reqs = append(cs.Reqs, Req{Name: Bin("ping")})
+		}
+		c.Spec.Clients = []ClientSpec{cs}
+		c.Spec.Plans = []Plan{{Key: k, Fault: rapid.SampledFrom(c15Faults).Draw(t, "deepfault"), Partial: 3}}
+		return c
+	}
 	nc := rapid.IntRange(1, 3).Draw(t, "nclients")
 	base := rapid.SampledFrom([]int{100, 5461, 10922, 5459}).Draw(t, "base")
 	for ci := 0; ci < nc; ci++ {
